@@ -282,6 +282,23 @@ pub fn run_c18(tier: Tier) -> i32 {
         }
     }
     states += (w2.len() * w2.len()) as u64;
+    // (a') the same pairs pushed into every budget class: a common prefix does not change the
+    // distance but raises the byte length (budgets 2..5 need received ≥ 8 / 13 / 18 / 25 bytes)
+    let w3 = words(&['a', 'b', 'c'], 4);
+    let mut padded = 0u64;
+    for pad in [5usize, 10, 15, 22] {
+        let prefix = "q".repeat(pad);
+        for x in &w3 {
+            let r = format!("{prefix}{x}");
+            for y in &w3 {
+                let c = format!("{prefix}{y}");
+                let g = check(&r, &[c.as_str()]);
+                outcomes.insert(hash64(&("pad", pad, g.is_empty(), x.len(), y.len())));
+                padded += 1;
+            }
+        }
+    }
+    states += padded;
     // (c) around every budget threshold: candidates at every exact distance 0..7
     let mut threshold_cases = 0u64;
     for len in [3usize, 4, 7, 8, 12, 13, 17, 18, 24, 25, 30, 40] {
@@ -381,7 +398,7 @@ pub fn run_c18(tier: Tier) -> i32 {
     rec.set_extra("alphabet_pairs_length", json!(l1));
     rec.finish(
         "model_checking",
-        "complete enumeration of four finite spaces: (a) every (received, single candidate) pair over {a,b,c}^≤6 (quick) / ^≤7 (thorough); (b) every pair over {a,é}^≤7 (byte length ≠ char length, crossing the 3/4, 7/8 and 12/13 byte thresholds); (c) for byte lengths 3,4,7,8,12,13,17,18,24,25,30,40 (ascii and multi-byte bases) candidates at every distance 0..7 built by substitution / deletion / insertion / transposition, singly and in all ordered pairs; (d) every candidate list of length 0..3 over a 12-string pool (ties, exact matches, empty string, duplicates) for 60 received strings. Oracle: independent unrestricted Damerau–Levenshtein over chars, budget by byte length, earliest minimal candidate; output empty or exactly `did you mean `X`? `.",
+        "complete enumeration of four finite spaces: (a) every (received, single candidate) pair over {a,b,c}^≤6 (quick) / ^≤7 (thorough); (a') every pair over {a,b,c}^≤4 behind a common prefix of 5 / 10 / 15 / 22 bytes, so that every distance 0..4 is met in every budget class 2..5 (transposition-with-insertion shapes distinguish true Damerau–Levenshtein from optimal string alignment only from budget 2 on); (b) every pair over {a,é}^≤7 (byte length ≠ char length, crossing the 3/4, 7/8 and 12/13 byte thresholds); (c) for byte lengths 3,4,7,8,12,13,17,18,24,25,30,40 (ascii and multi-byte bases) candidates at every distance 0..7 built by substitution / deletion / insertion / transposition, singly and in all ordered pairs; (d) every candidate list of length 0..3 over a 12-string pool (ties, exact matches, empty string, duplicates) for 60 received strings. Oracle: independent unrestricted Damerau–Levenshtein over chars, budget by byte length, earliest minimal candidate; output empty or exactly `did you mean `X`? `.",
         &["the reference distance is the textbook unrestricted Damerau–Levenshtein (self-checked on known values at start-up)"],
     )
 }
